@@ -30,6 +30,7 @@ import (
 	"fmt"
 	"os"
 	"path/filepath"
+	"regexp"
 	"sort"
 	"strings"
 )
@@ -85,6 +86,7 @@ type LoopSpec struct {
 	Invariants []Clause
 	Modifies   []string
 	Decreases  *Clause
+	Steps      []Clause
 }
 
 type FuncContract struct {
@@ -109,6 +111,8 @@ type FuncContract struct {
 	CallSites  map[string]*CallSiteSpec
 	Asserts    []Clause
 	Allocates  []string
+	Inherit    []string
+	RegionLoops []int
 	Unreachable []string
 	Ghosts     []Clause
 	File       string
@@ -134,7 +138,7 @@ type PkgContracts struct {
 var clauseKeywords = map[string]bool{
 	"pred": true, "spec": true, "pool": true, "ghostfield": true, "ufun": true, "axiom": true, "lemma": true, "func": true, "extern": true,
 	"props": true, "mode": true, "requires": true, "ensures": true, "modifies": true, "loop": true,
-	"assume": true, "trusted": true, "ghost": true, "allow-panic": true, "note": true, "callsite": true, "assert": true, "allocates": true, "unreachable": true,
+	"assume": true, "trusted": true, "ghost": true, "allow-panic": true, "note": true, "callsite": true, "assert": true, "allocates": true, "unreachable": true, "inherit": true, "region": true,
 }
 
 func parseParams(s string) ([]Param, error) {
@@ -212,7 +216,87 @@ func LoadContracts(repo string) (map[string]*PkgContracts, error) {
 			return nil, err
 		}
 	}
+	for _, pc := range res {
+		done := map[*FuncContract]bool{}
+		var resolve func(fc *FuncContract) error
+		resolve = func(fc *FuncContract) error {
+			if done[fc] {
+				return nil
+			}
+			done[fc] = true
+			for _, spec := range fc.Inherit {
+				from := spec
+				if i := strings.Index(spec, " with "); i > 0 {
+					from = strings.TrimSpace(spec[:i])
+				}
+				if src, ok := pc.Funcs[from]; ok {
+					if err := resolve(src); err != nil {
+						return err
+					}
+				}
+			}
+			return inheritInto(pc, fc)
+		}
+		for _, fc := range pc.Funcs {
+			if err := resolve(fc); err != nil {
+				return nil, err
+			}
+		}
+	}
 	return res, nil
+}
+
+func inheritInto(pc *PkgContracts, fc *FuncContract) error {
+	{
+		{
+			for _, spec := range fc.Inherit {
+				// inherit NAME [with x = EXPR]
+				from := spec
+				var subName string
+				var subExpr Expr
+				if i := strings.Index(spec, " with "); i > 0 {
+					from = strings.TrimSpace(spec[:i])
+					rest := spec[i+6:]
+					j := strings.Index(rest, "=")
+					if j < 0 {
+						return fmt.Errorf("%s: inherit: expected `with x = EXPR`", fc.Name)
+					}
+					subName = strings.TrimSpace(rest[:j])
+					e, err := ParseExpr(rest[j+1:])
+					if err != nil {
+						return fmt.Errorf("%s: inherit: %v", fc.Name, err)
+					}
+					subExpr = e
+				}
+				src, ok := pc.Funcs[from]
+				if !ok {
+					return fmt.Errorf("%s: inherit %s: no such contract", fc.Name, from)
+				}
+				sub := func(c Clause) Clause {
+					if subExpr != nil {
+						c.Expr = substExpr(c.Expr, subName, subExpr)
+					}
+					return c
+				}
+				for _, r := range src.Requires {
+					fc.Requires = append(fc.Requires, sub(r))
+				}
+				for _, e := range src.Ensures {
+					if e.Ret == 0 && !e.Local {
+						fc.Ensures = append(fc.Ensures, sub(e))
+					}
+				}
+				for _, m := range src.Modifies {
+					if subExpr != nil {
+						m = regexp.MustCompile(`\b`+regexp.QuoteMeta(subName)+`\b`).ReplaceAllString(m, subExpr.String())
+					}
+					fc.Modifies = append(fc.Modifies, m)
+				}
+				fc.HasModifies = fc.HasModifies || src.HasModifies
+			}
+		}
+	}
+	return nil
 }
 
 func parseContractFile(path string, pc *PkgContracts) error {
@@ -487,6 +571,21 @@ func parseContractFile(path string, pc *PkgContracts) error {
 					return fail(c, "%v", err)
 				}
 				cur.Asserts = append(cur.Asserts, Clause{Expr: e, Src: rest, Name: f[0], Site: site})
+			case "region":
+				// region loop N : only loop N of this function is verified, as a region (see Gen.RunRegion)
+				f := strings.Fields(c.text)
+				var n int
+				if len(f) != 2 || f[0] != "loop" {
+					return fail(c, "region needs `loop N`")
+				}
+				if _, err := fmt.Sscanf(f[1], "%d", &n); err != nil {
+					return fail(c, "region: bad loop ordinal")
+				}
+				cur.RegionLoops = append(cur.RegionLoops, n)
+			case "inherit":
+				// inherit NAME : this function has the same requires / ensures / modifies as NAME (same parameter
+				// names); used for thin wrappers (lock; call; unlock). Ret-specific and @local clauses are not inherited.
+				cur.Inherit = append(cur.Inherit, strings.TrimSpace(c.text))
 			case "unreachable":
 				// unreachable retN, loopN : this point is dead under the precondition (proved: its cover query is unsat)
 				for _, a := range strings.Split(c.text, ",") {
@@ -537,6 +636,13 @@ func parseContractFile(path string, pc *PkgContracts) error {
 							ls.Modifies = append(ls.Modifies, m)
 						}
 					}
+				case "step":
+					// two-state property of one iteration: before(e) is e at the start of the iteration
+					cl, err := mkClause(c, rest)
+					if err != nil {
+						return err
+					}
+					ls.Steps = append(ls.Steps, cl)
 				case "decreases":
 					cl, err := mkClause(c, rest)
 					if err != nil {
@@ -582,6 +688,66 @@ func parseContractFile(path string, pc *PkgContracts) error {
 		}
 	}
 	return nil
+}
+
+// substExpr replaces free occurrences of identifier `name` in e by repl (bound variables of quantifiers shadow).
+func substExpr(e Expr, name string, repl Expr) Expr {
+	switch x := e.(type) {
+	case *EIdent:
+		if x.Name == name {
+			return repl
+		}
+		return x
+	case *ESel:
+		return &ESel{substExpr(x.X, name, repl), x.Name}
+	case *EIndex:
+		return &EIndex{substExpr(x.X, name, repl), substExpr(x.I, name, repl)}
+	case *ESlice:
+		n := &ESlice{X: substExpr(x.X, name, repl)}
+		if x.Lo != nil {
+			n.Lo = substExpr(x.Lo, name, repl)
+		}
+		if x.Hi != nil {
+			n.Hi = substExpr(x.Hi, name, repl)
+		}
+		return n
+	case *ECall:
+		n := &ECall{Fn: x.Fn}
+		for _, a := range x.Args {
+			n.Args = append(n.Args, substExpr(a, name, repl))
+		}
+		return n
+	case *EUn:
+		return &EUn{x.Op, substExpr(x.X, name, repl)}
+	case *EBin:
+		return &EBin{x.Op, substExpr(x.X, name, repl), substExpr(x.Y, name, repl)}
+	case *EOld:
+		return &EOld{substExpr(x.X, name, repl)}
+	case *EQuant:
+		for _, v := range x.Vars {
+			if v.Name == name {
+				return x
+			}
+		}
+		n := &EQuant{Forall: x.Forall, Body: substExpr(x.Body, name, repl)}
+		for _, v := range x.Vars {
+			b := v
+			if v.Lo != nil {
+				b.Lo = substExpr(v.Lo, name, repl)
+				b.Hi = substExpr(v.Hi, name, repl)
+			}
+			n.Vars = append(n.Vars, b)
+		}
+		for _, tr := range x.Triggers {
+			var nt []Expr
+			for _, t := range tr {
+				nt = append(nt, substExpr(t, name, repl))
+			}
+			n.Triggers = append(n.Triggers, nt)
+		}
+		return n
+	}
+	return e
 }
 
 func isIdentLike(s string) bool {
